@@ -94,7 +94,7 @@ def enumerate_cases(tier, seed):
                 cases.append({"fam": f, "prog": retag(p, ty), "typing": ty})
             else:
                 rest.append({"fam": f, "prog": retag(p, ty), "typing": ty})
-    cases += runner.slice_by_seed(rest, seed, 40 if tier == "quick" else 4)
+    cases += runner.slice_by_seed(rest, seed, 40 if tier == "quick" else 12)
     # multi-process hash-seed assignments (few programs, all assignments)
     mp = [("ring2x2", distspace.ring(2, 2)), ("multi-send", distspace.multi_send()), ("star3", distspace.star(3)),
           ("multi-stage-mixed3", distspace.multi_stage_shared("mixed", 3))]
